@@ -156,7 +156,7 @@ func (lc *ListenConfig) ListenPacket(ctx context.Context, network, address strin
 	s := &sockState{fd: len(n.socks), proto: "udp", rdl: -1, wdl: -1, openedBy: e.cur.id, closed: true}
 	n.socks = append(n.socks, s)
 	if lc.Control != nil {
-		if err := lc.Control(network, address, rawConn{fd: uintptr(fdBase + s.fd)}); err != nil {
+		if err := lc.Control(network, address, rawConn{fd: uintptr(e.Net.FdBase + s.fd)}); err != nil {
 			return nil, &net.OpError{Op: "listen", Net: network, Err: err}
 		}
 	}
